@@ -11,9 +11,11 @@ PROP = "C08"
 TIERS = {
     # streams, runs per stream, real generate_loopy every k-th run
     "quick": {"streams": 64, "runs": 450, "codegen_every": 9, "budget_s": None,
-              "shadow_every": 450},
+              "shadow_every": 450, "enum_tasks": 16, "enum_budget": 800,
+              "enum_cap": 1500},
     "thorough": {"streams": 4000, "runs": 300, "codegen_every": 3,
-                 "budget_s": 20 * 60, "shadow_every": 50},
+                 "budget_s": 20 * 60, "shadow_every": 50, "enum_tasks": 1500,
+                 "enum_budget": 6000, "enum_cap": 20000},
 }
 
 
@@ -24,7 +26,54 @@ def evaluate(case, res):
 from checks.known import match_known  # noqa: E402
 
 
+def run_enum_task(task):
+    """bounded exhaustive stratum: ALL schedules of small recipes"""
+    import random
+    from simkit import enumsched
+    seed, (_kind, k), budget, cap = task[:4]
+    known = driver.load_known_findings(PROP)
+    acc = e1.Accum()
+    t0 = time.monotonic()
+    done = 0
+    i = 0
+    while done < budget and i < 400:
+        rng = random.Random(f"{seed}:{PROP}:enum:{k}:{i}")
+        i += 1
+        recipe = mrecipe.gen_recipe(rng, max_ranks=3,
+                                    max_comm=rng.choice([1, 2, 2, 3]))
+        _live, livec = mrecipe.live_sets(recipe)
+        if recipe["nranks"] < 2 or not livec:
+            continue
+        out = enumsched.enumerate_case(recipe, evaluate, max_runs=cap)
+        done += out["schedules"]
+        acc.runs += out["schedules"]
+        acc.extra["enum_schedules"] += out["schedules"]
+        acc.extra["enum_recipes"] += 1
+        key = f"enum[{recipe['nranks']} ranks,{len(livec)} msgs]"
+        if out["exhaustive"]:
+            acc.extra["enum_recipes_exhausted"] += 1
+            acc.extra[key + ":exhausted"] += 1
+            acc.extra[key + ":schedules"] += out["schedules"]
+        else:
+            acc.extra[key + ":capped"] += 1
+        if out["bad"] is not None:
+            b = out["bad"]
+            rest, hits = match_known(b["case"], b["violations"], known)
+            for h in hits:
+                acc.known.append((h, f"enum{k}", i))
+            if rest:
+                acc.violations.append({
+                    "stream": f"enum{k}", "run": i, "case": b["case"],
+                    "decisions": b["decisions"],
+                    "classes": e1.classes_of(rest), "details": rest[:8]})
+                break
+    acc.wall = time.monotonic() - t0
+    return acc
+
+
 def run_stream(task):
+    if isinstance(task[1], tuple):
+        return run_enum_task(task)
     seed, stream, nruns, codegen_every = task[:4]
     shadow_every = task[4] if len(task) > 4 else 0
     known = driver.load_known_findings(PROP)
@@ -75,5 +124,20 @@ def replay(path):
 
 
 def make_tasks(seed, conf):
-    return [(seed, k, conf["runs"], conf["codegen_every"],
-             conf.get("shadow_every", 0)) for k in range(conf["streams"])]
+    tasks = [(seed, k, conf["runs"], conf["codegen_every"],
+              conf.get("shadow_every", 0)) for k in range(conf["streams"])]
+    for k in range(conf.get("enum_tasks", 0)):
+        tasks.insert(min(len(tasks), 2 * k),
+                     (seed, ("enum", k), conf["enum_budget"], conf["enum_cap"]))
+    return tasks
+
+
+def coverage_extra(total):
+    ex = {k: int(v) for k, v in sorted(total.extra.items())
+          if k.startswith("enum")}
+    return {"bounded_exhaustive_stratum": dict(
+        ex, note="depth-first enumeration of all schedules (deliveries, send "
+                 "completions, Wait/Waitsome wake-ups, every non-empty Waitsome "
+                 "subset; eager and rendezvous) of small recipes (<=3 ranks, "
+                 "<=3 messages); 'exhausted' = the whole schedule tree of that "
+                 "recipe was visited; evaluations above include these runs")}
